@@ -260,11 +260,15 @@ def main():
     ap.add_argument("--of", type=int)
     ap.add_argument("--out")
     ap.add_argument("--twice", type=int, default=0)
-    ap.add_argument("--scenario-timeout", type=float, default=120)
+    ap.add_argument("--scenario-timeout", type=float, default=None)
     ap.add_argument("--no-evidence", action="store_true")
     ap.add_argument("--no-shrink", action="store_true")
     ap.add_argument("--no-selftest", action="store_true")
     a = ap.parse_args()
+    if a.scenario_timeout is None:
+        # a hang detector, not a budget: exhaustive enumerations of the thorough tier take minutes per
+        # scenario on a loaded machine
+        a.scenario_timeout = 300.0 if a.tier == "quick" else 1800.0
     if a.prop not in props.PROPS:
         print("unknown property", a.prop)
         sys.exit(2)
